@@ -21,6 +21,19 @@ Theorem C05_shield : forall c s o ops,
 Proof. exact shield. Qed.
 Print Assumptions C05_shield.
 
+(* the same when the wall clock does not only move forward (it is set back, then runs on): as long as no reading along the
+   way reaches trip instant + fallback duration, the breaker stays tripped, its deadline stays where the trip put it and
+   every arrival before it is answered by the fallback. [all_below] lists the readings; no sign condition on the ticks. *)
+Theorem C05_shield_whatever_the_clock_does : forall c s o ops,
+  state s <> Tripped -> state (fst (step c s o)) = Tripped ->
+  let s1 := fst (step c s o) in
+  all_below c s1 ops (now s + fallbackD c) -> now s1 < now s + fallbackD c ->
+  let s2 := exec (step c) s1 ops in
+  state s2 = Tripped /\ until s2 = now s + fallbackD c /\
+  (now s2 < now s + fallbackD c -> forall h', step c s2 (Arrive h') = (s2, Fallback)).
+Proof. exact shield_any_clock. Qed.
+Print Assumptions C05_shield_whatever_the_clock_does.
+
 (* helper: while tripped and before until, nothing moves state or until *)
 Theorem C05_until_fixed_while_tripped : forall c ops s,
   state s = Tripped -> ticks_nonneg ops -> now (exec (step c) s ops) < until s ->
